@@ -1,7 +1,7 @@
 """FilterQuery / BlockQuery families: C05 (GetCFilter returns only filters that
 match the committed filter header) and C06 (GetBlock returns only the
 requested, internally valid block)."""
-import json, os, random, shutil, time
+import json, os, random, shutil, signal, subprocess, time
 from .. import core, family
 
 SPEC_F = os.path.join(core.VERIF, "specs", "FilterQuery")
@@ -64,9 +64,10 @@ MANIFEST = {
 }
 
 PROPS = {
-    "C05": ["ReturnedMatchesCommitted", "StoredOnlyVerified", "ContentsAreTrueFilters", "FailsCleanly"],
+    "C05": ["ReturnedMatchesCommitted", "StoredOnlyVerified", "ContentsAreTrueFilters", "FailsCleanly",
+            "CallReturns"],
     "C06": ["ReturnedIsRequested", "InvalidSenderBanned", "OthersIgnored", "RejectedNotFinished",
-            "OnlyIntactCached", "FailsCleanly"],
+            "OnlyIntactCached", "FailsCleanly", "CallReturns"],
 }
 
 
@@ -107,8 +108,13 @@ CONFIGS = {
 
 # free-running traces through the real query.WorkManager: (number of scenarios, share of peers that stay
 # silent after their script instead of disconnecting - each costs the dispatcher's 2 s+ job timeout)
-FREE = {("C05", "quick"): (64, 0.0), ("C05", "thorough"): (1000, 0.05),
-        ("C06", "quick"): (64, 0.0), ("C06", "thorough"): (1000, 0.05)}
+FREE = {   # (scenarios, share of silent peers, share of chattering peers, scenarios with a forced chattering peer)
+    ("C05", "quick"): (64, 0.0, 0.0, 4), ("C05", "thorough"): (1000, 0.04, 0.03, 8),
+    ("C06", "quick"): (64, 0.0, 0.0, 4), ("C06", "thorough"): (1000, 0.04, 0.03, 8)}
+# A peer that stays silent, or keeps sending unrelated messages ("chatter", one every 400 ms), costs the
+# dispatcher's job timeout (2 s, doubled per timeout) before the request moves on; everything else is immediate.
+DRIVER_TIMEOUT = 1200      # outer wall-clock bound of one driver process (normal: < 90 s)
+BOUND_FAST, BOUND_SLOW = 30, 150   # per-call bound in free-running scenarios without / with silent or chattering peers
 
 INVARIANTS = {"FilterQuery": ["TypeOK", "SingleFlight", "StoredCommitted"], "BlockQuery": ["TypeOK"]}
 
@@ -214,23 +220,45 @@ def _fq_range(h, m, cp, ftip):
     return max(s0, 1), min(e0, ftip)
 
 
-def free_scenarios(module, consts, n, rng, silent_share):
+def free_scenarios(module, consts, n, rng, silent_share, chatter_share=0.0, forced_chatter=0):
     """n scenario lines (dicts with init_obs and free) inside the bounds of consts."""
     out = []
     ev = lambda x: eval(x.replace("{", "[").replace("}", "]").replace("TRUE", "True").replace("FALSE", "False"))
-    for _ in range(n):
+    def ending():
+        x = rng.random()
+        return "silent" if x < silent_share else "chatter" if x < silent_share + chatter_share else "disconnect"
+
+    def finish_call(call, chatter_items, force):
+        """Sets the chatter items and the wall-clock bound; force: one peer is made to chatter and nobody
+        may finish the request, so that the chattering peer is certainly asked."""
+        if force:
+            call["peers"][rng.randrange(len(call["peers"]))]["end"] = "chatter"
+        slow = False
+        for pr in call["peers"]:
+            if pr["end"] == "chatter":
+                pr["chatter"] = chatter_items
+            slow = slow or pr["end"] in ("silent", "chatter")
+        call["bound_s"] = BOUND_SLOW if slow else BOUND_FAST
+        return call
+
+    for sn in range(n):
+        force = sn < forced_chatter
         if module == "BlockQuery":
             nb, np_, mc = consts["NB"], consts["NP"], consts["MaxCalls"]
             init = {"ret": -9, "cache": [0] * nb, "cx": 0, "banned": [0] * np_}
             calls = []
             for _c in range(rng.randint(1, mc)):
                 tgt = rng.choice(list(range(1, nb + 1)) * 4 + [nb + 1])
+                if force and _c == 0:
+                    tgt = rng.randint(1, nb)
                 peers, first = [], True
                 order = list(range(1, np_ + 1))
                 for p in order:
                     script = []
                     for j in range(rng.randint(0, 3)):
                         ks = ["intact", "other", "sibling", "mutated", "added", "removed", "stripped", "forged", "nonblock"]
+                        if force and _c == 0:
+                            ks.remove("intact")
                         if j > 0:       # the dispatcher decides which peer is asked first
                             ks.append("dup")
                         k = rng.choice(ks)
@@ -243,9 +271,11 @@ def free_scenarios(module, consts, n, rng, silent_share):
                             b = -1          # resolved by the driver / the walk
                         script.append({"k": k, "b": b})
                     first = False
-                    peers.append({"p": p, "script": script,
-                                  "end": "silent" if rng.random() < silent_share else "disconnect"})
-                calls.append({"tgt": tgt, "m": "", "cap": 0, "retries": np_, "peers": peers})
+                    peers.append({"p": p, "script": script, "end": ending()})
+                other = rng.choice([x for x in range(1, nb + 2) if x != tgt])
+                chat = [{"k": "other", "b": other}, {"k": "nonblock", "b": 0}, {"k": "sibling", "b": tgt}]
+                calls.append(finish_call({"tgt": tgt, "m": "", "cap": 0, "retries": np_, "peers": peers},
+                                         chat, force and _c == 0))
             out.append({"init_obs": init, "free": {"calls": calls}})
         else:
             bt = consts["BTip"]
@@ -263,6 +293,8 @@ def free_scenarios(module, consts, n, rng, silent_share):
                 script = []
                 for j in range(rng.randint(0, 4)):
                     k = rng.choice(["true", "true", "true", "wrong", "malformed", "wrongtype", "noncf"])
+                    if force and k == "true" and tgt in inr:
+                        k = "noncf"          # nobody completes the request
                     if k == "true":
                         b = rng.choice(inr * 3 + list(range(0, bt + 1))) if inr else rng.randint(0, bt)
                     elif k == "noncf":
@@ -273,11 +305,38 @@ def free_scenarios(module, consts, n, rng, silent_share):
                             continue
                         b = rng.choice(pool)
                     script.append({"k": k, "b": b})
-                peers.append({"p": p, "script": script,
-                              "end": "silent" if rng.random() < silent_share else "disconnect"})
+                peers.append({"p": p, "script": script, "end": ending()})
+            chat = [{"k": "noncf", "b": 0}, {"k": "true", "b": 0}]
             out.append({"init_obs": init,
-                        "free": {"calls": [{"tgt": tgt, "m": m, "cap": cp, "retries": 3, "peers": peers}]}})
+                        "free": {"calls": [finish_call({"tgt": tgt, "m": m, "cap": cp, "retries": 3, "peers": peers},
+                                                       chat, force)]}})
     return out
+
+
+def run_driver(binary, test_name, paths_file, out_file, scratch, timeout=DRIVER_TIMEOUT, env_extra=None):
+    """Like family.run_driver, with an outer wall-clock bound: the driver bounds every blocking point itself
+    (hung calls become the judged outcome "hang"); if the process as a whole still does not finish it is
+    killed and the run is a machinery error, never a verdict."""
+    env = core.go_env()
+    env.update({"VERIF_PATHS": paths_file, "VERIF_OUT": out_file, "VERIF_SCRATCH": scratch})
+    if env_extra:
+        env.update(env_extra)
+    p = subprocess.Popen([binary, "-test.run", "^" + test_name + "$", "-test.count=1",
+                          "-test.timeout", "%ds" % timeout], cwd=scratch, env=env, stdout=subprocess.PIPE,
+                         stderr=subprocess.STDOUT, text=True, start_new_session=True)
+    try:
+        out, _ = p.communicate(timeout=timeout + 60)
+    except subprocess.TimeoutExpired:
+        try:
+            os.killpg(p.pid, signal.SIGKILL)
+        except OSError:
+            pass
+        p.wait()
+        raise core.MachineryError("driver %s did not finish within %d s and was killed" % (test_name, timeout + 60))
+    if p.returncode != 0 or not os.path.exists(out_file):
+        raise core.MachineryError("driver failed rc=%d:\n%s" % (p.returncode, out[-6000:]))
+    res = [json.loads(line) for line in open(out_file)]
+    return res, out
 
 
 class _Merged:
@@ -323,7 +382,7 @@ def run(prop_id, tier, seed, replay=None):
 
         def replay_chunk(pf):
             t1 = time.time()
-            observed, log = family.run_driver(binary, test, pf, pf + ".obs", sc,
+            observed, log = run_driver(binary, test, pf, pf + ".obs", sc,
                                               env_extra={"VERIF_SEED": str(seed)})
             os.remove(pf + ".obs")
             phases["replay_s"] += time.time() - t1
@@ -345,7 +404,11 @@ def run(prop_id, tier, seed, replay=None):
             state["drift"][1] += n_drift
             state["drift"][2] = (state["drift"][2] + samples)[:5]
             for t in observed:
+                if t.get("skipped"):
+                    state["skipped"] = state.get("skipped", 0) + 1
                 for st in t["steps"]:
+                    if st["act"].get("res") == "hang":
+                        state["hangs"] = state.get("hangs", 0) + 1
                     v = st.get("var")
                     if v:
                         v = v.split(" ")[0]
@@ -359,17 +422,17 @@ def run(prop_id, tier, seed, replay=None):
         free = FREE.get((prop_id, tier))
 
         def free_run(g, consts, spec_free):
-            n, silent = spec_free
+            n, silent, chatter, forced = spec_free
             t1 = time.time()
             fpf = os.path.join(sc, "free.ndjson")
             scen = {}
             with open(fpf, "w") as f:
-                for i, d in enumerate(free_scenarios(module, consts, n, rng, silent)):
+                for i, d in enumerate(free_scenarios(module, consts, n, rng, silent, chatter, forced)):
                     d["id"] = 10 ** 7 + i
                     d["steps"] = []
                     scen[d["id"]] = d["free"]
                     f.write(json.dumps(d) + "\n")
-            traces, log = family.run_driver(binary, test, fpf, fpf + ".obs", sc,
+            traces, log = run_driver(binary, test, fpf, fpf + ".obs", sc,
                                             env_extra={"VERIF_SEED": str(seed)})
             traces.sort(key=lambda t: t["id"])
             # the "dup" letter: the driver resolves it to the previous message; give it the model's b
@@ -400,6 +463,8 @@ def run(prop_id, tier, seed, replay=None):
                     r["labels"] = [label(x["act"]) for x in t["steps"][:r["step"]]]
                     rejected.append(r)
             state["free"] = {"traces": len(traces), "steps": sum(len(t["steps"]) for t in traces),
+                             "hung_calls": sum(1 for t in traces for st in t["steps"] if st["act"].get("res") == "hang"),
+                             "skipped": sum(1 for t in traces if t.get("skipped")),
                              "not_a_behaviour_of_the_spec": len(rejected), "samples": rejected[:3],
                              "wall_s": round(time.time() - t1, 1),
                              "example": [label(x["act"]) for x in traces[0]["steps"]] if traces else []}
@@ -470,6 +535,8 @@ def run(prop_id, tier, seed, replay=None):
                              tuple(state["drift"]),
                              {"scenarios": info, "edges_only_reachable_through_model_violation": state["unreach"],
                               "phases": phases, "free_running": state.get("free"),
+                              "hung_calls": state.get("hangs", 0) + (state.get("free") or {}).get("hung_calls", 0),
+                              "paths_skipped_after_repeated_hangs": state.get("skipped", 0),
                               "response_variants_exercised": dict(sorted(state["variants"].items()))},
                              ASSUMPTIONS[prop_id], label=label)
     finally:
